@@ -163,8 +163,7 @@ func TestFreeV2(t *testing.T) {
 	for i := 0; i < n && time.Now().Before(deadline); i++ {
 		cfg := randomConfig(rnd)
 		evs := freeRunV2(t, cfg, rnd, calls, &cmu)
-		events.put(map[string]any{"e": "Reset", "path": i + 1, "H": cfg.H, "prios": cfg.Prios, "share": shareOf(cfg),
-			"sat": false, "fault": false, "cont": "free", "p": 0, "k": 0, "c": 0, "cfg": cfg})
+		events.put(resetV2(cfg, i+1, "free", false))
 		for _, o := range evs {
 			events.put(o)
 		}
